@@ -25,6 +25,9 @@ impl Errs {
 /// A violation raised by the kernel (e.g. `blocked-forever`) wins over the panic it unwinds with.
 pub fn run_on_kernel(cfg: simkernel::KConfig, body: impl FnOnce()) -> Result<simkernel::EndState, Violation> {
     let fds_before = open_fds();
+    // rand's thread-local generator lives as long as the thread: reseed it (from the run's entropy stream) so
+    // that what quinn-proto or tungstenite draw from it does not depend on the runs that came before
+    let _ = rand::rng().reseed();
     simkernel::begin(cfg);
     let r = std::panic::catch_unwind(std::panic::AssertUnwindSafe(body));
     let end = simkernel::end();
